@@ -58,20 +58,28 @@ def decHyper (sc : SC α) (j : Json) : R (Hyper α) := do
   let eps ← field j "eps" >>= sc.dec
   .ok ⟨rate, decay, maxFails, epochIters, maxIters, tol, b1, b2, eps⟩
 
-def decState (sc : SC α) (j : Json) : R (OptState α) := do
+def decState (sc : SC α) (kind : Opt.Kind) (j : Json) : R (OptState α) := do
   let nfails ← field j "nfails" >>= asNat
-  let total ← field j "total_iters" >>= asNat
-  let m ← field j "m" >>= decFactors sc
-  let mp ← field j "m_prev" >>= decFactors sc
-  let v ← field j "v" >>= decFactors sc
-  let vp ← field j "v_prev" >>= decFactors sc
-  let g ← field j "gnormsum" >>= sc.dec
-  .ok ⟨nfails, total, m, mp, v, vp, g⟩
+  match kind with
+  | .sgd => .ok (.sgd nfails)
+  | .adam => do
+    let total ← field j "total_iters" >>= asNat
+    let m ← field j "m" >>= decFactors sc
+    let mp ← field j "m_prev" >>= decFactors sc
+    let v ← field j "v" >>= decFactors sc
+    let vp ← field j "v_prev" >>= decFactors sc
+    .ok (.adam nfails total m mp v vp)
+  | .adagrad => do
+    let g ← field j "gnormsum" >>= sc.dec
+    .ok (.adagrad nfails g)
 
-def encState (sc : SC α) (s : OptState α) : Json :=
-  Json.mkObj [("nfails", toJson s.nfails), ("total_iters", toJson s.totalIters),
-    ("m", encFactors sc s.m), ("m_prev", encFactors sc s.mPrev), ("v", encFactors sc s.v),
-    ("v_prev", encFactors sc s.vPrev), ("gnormsum", sc.enc s.gnormsum)]
+def encState (sc : SC α) : OptState α → Json
+  | .sgd n => Json.mkObj [("nfails", toJson n)]
+  | .adam n t m mp v vp =>
+    Json.mkObj [("nfails", toJson n), ("total_iters", toJson t),
+      ("m", encFactors sc m), ("m_prev", encFactors sc mp), ("v", encFactors sc v),
+      ("v_prev", encFactors sc vp)]
+  | .adagrad n g => Json.mkObj [("nfails", toJson n), ("gnormsum", sc.enc g)]
 
 def sampleJ (s : Sample Rat) : Json :=
   Json.mkObj [("subs", intMatJ s.subs), ("vals", ratsJ s.vals), ("wgts", ratsJ s.wgts)]
@@ -130,7 +138,7 @@ def solvesOp (sc : SC α) (sqrt : Option (α → α)) (j : Json) : R Json := do
     | some f => pure f
     | none => if kind == .sgd then pure (fun x => x) else .error "exact arithmetic: sgd only"
   let h ← field j "hyper" >>= decHyper sc
-  let st0 ← field j "state" >>= decState sc
+  let st0 ← field j "state" >>= decState sc kind
   let solves ← field j "solves" >>= asList pure
   let mut st := st0
   let mut out : Array Json := #[]
@@ -141,7 +149,7 @@ def solvesOp (sc : SC α) (sqrt : Option (α → α)) (j : Json) : R Json := do
     let gs ← field s "gs" >>= asList (decFactors sc)
     let fEst : Nat → Ktensor α → α := fun k _ => fs.getD k 0
     let gEst : Nat → Ktensor α → Factors α := fun k _ => gs.getD k []
-    match solveLoop kind sqrt h st init lb fEst gEst with
+    match solveLoop sqrt h st init lb fEst gEst with
     | .ok L =>
       out := out.push (Json.mkObj [("ok", loopJ sc L)])
       st := L.opt
@@ -157,13 +165,13 @@ def stepOp (sc : SC α) (sqrt : Option (α → α)) (j : Json) : R Json := do
     | some f => pure f
     | none => if kind == .sgd then pure (fun x => x) else .error "exact arithmetic: sgd only"
   let h ← field j "hyper" >>= decHyper sc
-  let st ← field j "state" >>= decState sc
+  let st ← field j "state" >>= decState sc kind
   let model ← field j "model" >>= decKtensor sc
   let grad ← field j "grad" >>= decFactors sc
   let lb ← decOpt sc j "lb"
   .ok (exceptJ (fun (r : Factors α × α × OptState α) =>
       Json.mkObj [("factors", encFactors sc r.1), ("step", sc.enc r.2.1), ("state", encState sc r.2.2)])
-    (updateStep kind sqrt h st model grad lb))
+    (updateStep sqrt h st model grad lb))
 
 end solve
 
